@@ -1,4 +1,1199 @@
 import A2lVerif.Model.Tree
-/-! helper lemmas for the panic-freedom of the generic parser (C03) -/
+import A2lVerif.Lemmas.Scalars
+/-!
+# helper lemmas for the C03 theorems about the generic parser (Props/C03Parse.lean)
+
+One judgement `Safe c lo lg r Q` classifies the outcome `r` of a parser function: on `ok`/`err` the cursor is in range
+(and, on `ok`, not below `lo`), the log extends `lg` in the sense of the log relation `c.L`, and a panic contradicts
+`c.NP`. The configuration `c : Cfg e` says what is tracked (`PB`: cursor positions, `NP`: absence of panics, with the
+hypotheses `TokOk`, `tableOk`, non-empty token array that this needs) and what is assumed of the `special` parsers.
+Every function of Model/Tree.lean gets one `_safe` lemma for an arbitrary configuration; the mutual block is done by
+induction on the fuel (`AllSafe`, `allSafe`). The five theorems are three instances: `cfgFull`, `cfgPos`, `cfgStrict`.
+-/
 namespace A2l.Tree
+open A2l.G A2l.Sc
+
+/-! ## the hypotheses of the C03 parser theorems (moved here verbatim from Props/C03Parse.lean) -/
+
+/-- what the parser relies on about the tokens (all consequences of `lex_inv` and of how tokens are built):
+    line numbers are 1-based and non-decreasing, identifier tokens are not empty -/
+structure TokOk (toks : Array PTok) : Prop where
+  line_pos : ∀ i (h : i < toks.size), 1 ≤ toks[i].line
+  line_mono : ∀ i j (hi : i < toks.size) (hj : j < toks.size), i ≤ j → toks[i].line ≤ toks[j].line
+  ident_ne : ∀ i (h : i < toks.size), toks[i].ty = 0 → toks[i].text ≠ []
+  comment_lines : ∀ i j (hi : i < toks.size) (hj : j < toks.size), i < j → toks[i].ty = 6 →
+    toks[i].line + countNewlines toks[i].text ≤ toks[j].line
+
+/-- item types only refer to existing types of the right kind -/
+def itemOk (tbl : Table) : ItemTy → Bool
+  | .enumRef ty => match tbl.lookup ty with | some (.enum _) => true | _ => false
+  | .structRef ty => match tbl.lookup ty with | some (.block _ _ _ _) => true | _ => false
+  | .arr of _ => itemOk tbl of
+  | .seq of _ => itemOk tbl of
+  | _ => true
+
+/-- decidable well-formedness of a grammar table as far as panic-freedom is concerned: every reference resolves to a
+    type of the expected kind, and the two types the hand-written code names exist with the expected shape -/
+def tableOk (tbl : Table) (k : Known) : Bool :=
+  tbl.all (fun e => match e.def_ with
+    | .block _ items arms _ =>
+      items.all (itemOk tbl) &&
+      arms.all (fun a => match tbl.lookup a.ty with | some (.block _ _ _ _) => true | some .special => true | _ => false)
+    | .enum _ => true
+    | _ => true) &&
+  (match tbl.lookup k.tyA2lFile with | some (.block _ _ _ _) => true | _ => false) &&
+  (match tbl.lookup k.tyAsap2Version with
+   | some (.block false [.int _, .int _] [] false) => true | _ => false)
+
+/-- the hand-written parsers of the `special` types (A2ML, IF_DATA) are a parameter of the model: what is assumed
+    of them here (and proved of their own model separately) is that they do not panic and keep the cursor in range -/
+def SpecialOk (e : Env) : Prop :=
+  ∀ ty ctx off s, s.pos ≤ e.toks.size →
+    e.special ty ctx off e.toks e.strict s ≠ .panic ∧
+    (∀ v s', e.special ty ctx off e.toks e.strict s = .ok v s' → s.pos ≤ s'.pos ∧ s'.pos ≤ e.toks.size ∧ ∃ l, s'.log = l ++ s.log) ∧
+    (∀ d s', e.special ty ctx off e.toks e.strict s = .err d s' → s'.pos ≤ e.toks.size ∧ ∃ l, s'.log = l ++ s.log)
+
+/-- a type that `parseType` can be called on: a block/keyword/struct or a `special` type -/
+def tyOk (tbl : Table) (ty : Nat) : Bool :=
+  match tbl.lookup ty with | some (.block _ _ _ _) => true | some .special => true | _ => false
+
+/-! ## the judgement -/
+
+/-- outcome classification relative to a lower bound `lo` for the cursor and a reference log `lg`.
+    `PB`: positions are tracked; `NP`: panics are excluded. -/
+def SafeRaw {α} (PB NP : Prop) (L : List Diag → List Diag → Prop) (size lo : Nat) (lg : List Diag)
+    (r : PRes α) (Q : α → PState → Prop) : Prop :=
+  match r with
+  | .ok a s' => (PB → lo ≤ s'.pos ∧ s'.pos ≤ size) ∧ L lg s'.log ∧ Q a s'
+  | .err _ s' => (PB → s'.pos ≤ size) ∧ L lg s'.log
+  | .panic => ¬ NP
+  | .fuel => True
+
+/-- what is tracked, and under which assumptions -/
+structure Cfg (e : Env) where
+  PB : Prop
+  NP : Prop
+  L : List Diag → List Diag → Prop
+  np_pb : NP → PB
+  tok : NP → TokOk e.toks
+  ne : NP → 0 < e.toks.size
+  tbl : NP → tableOk e.table e.known = true
+  L_refl : ∀ l, L l l
+  L_trans : ∀ {a b c}, L a b → L b c → L a c
+  L_log : ∀ (d : Diag) l, (e.strict = false ∨ d.kind = .blockRefDeprecated ∨ d.kind = .enumRefDeprecated) → L l (d :: l)
+  special : ∀ ty ctx off s, (PB → s.pos ≤ e.toks.size) →
+    SafeRaw PB NP L e.toks.size s.pos s.log (e.special ty ctx off e.toks e.strict s) (fun _ _ => True)
+
+variable {e : Env}
+
+def Cfg.Pre (c : Cfg e) (s : PState) : Prop := c.PB → s.pos ≤ e.toks.size
+
+def Safe {α} (c : Cfg e) (lo : Nat) (lg : List Diag) (r : PRes α) (Q : α → PState → Prop) : Prop :=
+  SafeRaw c.PB c.NP c.L e.toks.size lo lg r Q
+
+@[simp] theorem Safe_ok {α} (c : Cfg e) (lo lg) (a : α) (s') (Q : α → PState → Prop) :
+    Safe c lo lg (.ok a s') Q ↔ ((c.PB → lo ≤ s'.pos ∧ s'.pos ≤ e.toks.size) ∧ c.L lg s'.log ∧ Q a s') := Iff.rfl
+@[simp] theorem Safe_err {α} (c : Cfg e) (lo lg) (d) (s') (Q : α → PState → Prop) :
+    Safe c lo lg (.err d s') Q ↔ ((c.PB → s'.pos ≤ e.toks.size) ∧ c.L lg s'.log) := Iff.rfl
+@[simp] theorem Safe_panic {α} (c : Cfg e) (lo lg) (Q : α → PState → Prop) :
+    Safe c lo lg (.panic) Q ↔ ¬ c.NP := Iff.rfl
+@[simp] theorem Safe_fuel {α} (c : Cfg e) (lo lg) (Q : α → PState → Prop) :
+    Safe c lo lg (.fuel) Q ↔ True := Iff.rfl
+
+/-- closes goals `c.PB → arithmetic` from hypotheses that may be guarded by `c.PB` -/
+macro "pb_omega" : tactic =>
+  `(tactic| (intro hpb; simp only [hpb, true_implies, forall_const] at *; omega))
+
+theorem bind_eq {α β} (m : PM α) (f : α → PM β) (e : Env) (s : PState) :
+    (m >>= f) e s = match m e s with
+      | .ok a s' => f a e s' | .err d s' => .err d s' | .panic => .panic | .fuel => .fuel := rfl
+
+theorem Safe.bindG {α β} {c : Cfg e} {lo lo1 : Nat} {lg : List Diag} {m : PM α} {f : α → PM β} {s : PState}
+    {Q1 : α → PState → Prop} {Q2 : β → PState → Prop}
+    (h1 : Safe c lo1 lg (m e s) Q1)
+    (h2 : ∀ a s1, (c.PB → lo1 ≤ s1.pos ∧ s1.pos ≤ e.toks.size) → c.L lg s1.log → Q1 a s1 → Safe c lo lg (f a e s1) Q2) :
+    Safe c lo lg ((m >>= f) e s) Q2 := by
+  show Safe c lo lg (match m e s with
+    | .ok a s' => f a e s' | .err d s' => .err d s' | .panic => .panic | .fuel => .fuel) Q2
+  cases h : m e s with
+  | ok a s1 => rw [h] at h1; exact h2 a s1 h1.1 h1.2.1 h1.2.2
+  | err d s1 => rw [h] at h1; exact h1
+  | panic => rw [h] at h1; exact h1
+  | fuel => trivial
+
+theorem Safe.weaken {α} {c : Cfg e} {lo lo1 : Nat} {lg lg1 : List Diag} {r : PRes α}
+    {Q1 Q2 : α → PState → Prop}
+    (hlo : c.PB → lo ≤ lo1) (hl : c.L lg lg1)
+    (h1 : Safe c lo1 lg1 r Q1) (hq : ∀ a s1, Q1 a s1 → Q2 a s1) : Safe c lo lg r Q2 := by
+  cases r with
+  | ok a s1 =>
+    refine ⟨?_, c.L_trans hl h1.2.1, hq _ _ h1.2.2⟩
+    intro hpb; have := h1.1 hpb; have := hlo hpb; omega
+  | err d s1 => exact ⟨h1.1, c.L_trans hl h1.2⟩
+  | panic => exact h1
+  | fuel => trivial
+
+/-- the usual step: the callee's spec is relative to its own start state -/
+theorem Safe.bind' {α β} {c : Cfg e} {lo : Nat} {lg : List Diag} {m : PM α} {f : α → PM β} {s : PState}
+    {Q1 : α → PState → Prop} {Q2 : β → PState → Prop}
+    (hl : c.L lg s.log)
+    (h1 : Safe c s.pos s.log (m e s) Q1)
+    (h2 : ∀ a s1, (c.PB → s.pos ≤ s1.pos ∧ s1.pos ≤ e.toks.size) → c.L lg s1.log → Q1 a s1 → Safe c lo lg (f a e s1) Q2) :
+    Safe c lo lg ((m >>= f) e s) Q2 :=
+  Safe.bindG (lo1 := s.pos) (Safe.weaken (fun _ => Nat.le_refl _) hl h1 (fun _ _ h => h)) h2
+
+/-- `attempt`: after an error only the range of the cursor is known -/
+theorem Safe.bind_attempt {α β} {c : Cfg e} {lo : Nat} {lg : List Diag} {m : PM α} {f : Except Diag α → PM β}
+    {s : PState} {Q1 : α → PState → Prop} {Q2 : β → PState → Prop}
+    (hl : c.L lg s.log)
+    (h1 : Safe c s.pos s.log (m e s) Q1)
+    (hok : ∀ a s1, (c.PB → s.pos ≤ s1.pos ∧ s1.pos ≤ e.toks.size) → c.L lg s1.log → Q1 a s1 →
+      Safe c lo lg (f (.ok a) e s1) Q2)
+    (herr : ∀ d s1, (c.PB → s1.pos ≤ e.toks.size) → c.L lg s1.log → Safe c lo lg (f (.error d) e s1) Q2) :
+    Safe c lo lg ((attempt m >>= f) e s) Q2 := by
+  rw [bind_eq]
+  unfold attempt
+  cases h : m e s with
+  | ok a s1 => rw [h] at h1; exact hok a s1 h1.1 (c.L_trans hl h1.2.1) h1.2.2
+  | err d s1 => rw [h] at h1; exact herr d s1 h1.1 (c.L_trans hl h1.2)
+  | panic => rw [h] at h1; exact h1
+  | fuel => trivial
+
+theorem Safe.pure {α} {c : Cfg e} {lo : Nat} {lg : List Diag} {a : α} {s : PState} {Q : α → PState → Prop}
+    (hp : c.PB → lo ≤ s.pos ∧ s.pos ≤ e.toks.size) (hl : c.L lg s.log) (hq : Q a s) :
+    Safe c lo lg ((Pure.pure a : PM α) e s) Q := ⟨hp, hl, hq⟩
+
+theorem Safe.fail {α} {c : Cfg e} {lo : Nat} {lg : List Diag} {k : DK} {s : PState} {Q : α → PState → Prop}
+    (hp : c.PB → s.pos ≤ e.toks.size) (hl : c.L lg s.log) :
+    Safe c lo lg ((fail k : PM α) e s) Q := ⟨hp, hl⟩
+
+/-! ## evaluation of the state primitives under `bind` -/
+
+@[simp] theorem pure_bind_eval {α β} (a : α) (f : α → PM β) (e : Env) (s : PState) :
+    ((Pure.pure a : PM α) >>= f) e s = f a e s := rfl
+@[simp] theorem getEnv_bind {β} (f : Env → PM β) (e : Env) (s : PState) : (getEnv >>= f) e s = f e e s := rfl
+@[simp] theorem getState_bind {β} (f : PState → PM β) (e : Env) (s : PState) : (getState >>= f) e s = f s e s := rfl
+@[simp] theorem getTokenpos_bind {β} (f : Nat → PM β) (e : Env) (s : PState) :
+    (getTokenpos >>= f) e s = f s.pos e s := rfl
+@[simp] theorem peekToken_bind {β} (f : Option PTok → PM β) (e : Env) (s : PState) :
+    (peekToken >>= f) e s = f e.toks[s.pos]? e s := rfl
+@[simp] theorem setTokenpos_bind {β} (p : Nat) (f : Unit → PM β) (e : Env) (s : PState) :
+    (setTokenpos p >>= f) e s = f () e { s with pos := p } := rfl
+@[simp] theorem modifyState_bind {β} (g : PState → PState) (f : Unit → PM β) (e : Env) (s : PState) :
+    (modifyState g >>= f) e s = f () e (g s) := rfl
+@[simp] theorem getNextId_bind {β} (f : Nat → PM β) (e : Env) (s : PState) :
+    (getNextId >>= f) e s = f (s.seqId + 1) e { s with seqId := s.seqId + 1 } := rfl
+@[simp] theorem undo_bind {β} (f : Unit → PM β) (e : Env) (s : PState) :
+    (undoGetToken >>= f) e s = if s.pos = 0 then .panic else f () e { s with pos := s.pos - 1 } := by
+  rw [bind_eq]
+  unfold undoGetToken
+  simp only [getState_bind]
+  by_cases h : s.pos = 0
+  · simp only [h, if_true]; rfl
+  · simp only [h, if_false]; rfl
+theorem undo_eval (e : Env) (s : PState) :
+    undoGetToken e s = if s.pos = 0 then .panic else .ok () { s with pos := s.pos - 1 } := by
+  unfold undoGetToken
+  simp only [getState_bind]
+  by_cases h : s.pos = 0
+  · simp only [h, if_true]; rfl
+  · simp only [h, if_false]; rfl
+
+theorem getToken_eval (ctx : Ctx) (e : Env) (s : PState) :
+    getToken ctx e s = match e.toks[s.pos]? with
+      | some t => .ok t { s with pos := s.pos + 1, lastLine := t.line }
+      | none => .err ⟨.unexpectedEOF, s.lastLine⟩ s := by
+  unfold getToken
+  simp only [getEnv_bind, getState_bind]
+  cases e.toks[s.pos]? <;> rfl
+
+/-! ## primitives -/
+
+theorem lt_of_getElem?_some {toks : Array PTok} {i : Nat} {t : PTok} (h : toks[i]? = some t) : i < toks.size := by
+  rcases Nat.lt_or_ge i toks.size with h' | h'
+  · exact h'
+  · rw [getElem?_neg toks i (by omega)] at h; cases h
+
+theorem getToken_safe (c : Cfg e) (ctx : Ctx) (s : PState) (hp : c.Pre s) :
+    Safe c s.pos s.log (getToken ctx e s) (fun t s' => s'.pos = s.pos + 1 ∧ e.toks[s.pos]? = some t) := by
+  rw [getToken_eval]
+  cases h : e.toks[s.pos]? with
+  | none => exact ⟨hp, c.L_refl _⟩
+  | some t =>
+    have := lt_of_getElem?_some h
+    refine ⟨?_, c.L_refl _, rfl, rfl⟩
+    intro _; show s.pos ≤ s.pos + 1 ∧ s.pos + 1 ≤ e.toks.size; omega
+
+theorem getLineOffset_cases (e : Env) (s : PState) :
+    getLineOffset e s = .panic ∨ ∃ n, getLineOffset e s = .ok n s := by
+  unfold getLineOffset
+  simp only [getEnv_bind, getState_bind]
+  split
+  · cases e.toks[s.pos - 2]? <;> cases e.toks[s.pos - 1]? <;> simp only []
+    iterate 3 exact .inl rfl
+    repeat' split
+    all_goals first | exact .inl rfl | exact .inr ⟨_, rfl⟩
+  · cases e.toks[0]? <;> simp only []
+    · exact .inl rfl
+    · split
+      all_goals first | exact .inl rfl | exact .inr ⟨_, rfl⟩
+
+theorem getLineOffset_ne_panic (e : Env) (s : PState) (hk : TokOk e.toks) (hne : 0 < e.toks.size) :
+    getLineOffset e s ≠ .panic := by
+  unfold getLineOffset
+  simp only [getEnv_bind, getState_bind]
+  split
+  · rename_i h
+    have h2 : s.pos - 2 < e.toks.size := by omega
+    have h1 : s.pos - 1 < e.toks.size := by omega
+    rw [getElem?_pos e.toks _ h2, getElem?_pos e.toks _ h1]
+    dsimp only
+    by_cases hf : e.toks[s.pos - 2].fileid = e.toks[s.pos - 1].fileid
+    · rw [if_pos hf]
+      have hm := hk.line_mono (s.pos - 2) (s.pos - 1) h2 h1 (by omega)
+      have hc := hk.comment_lines (s.pos - 2) (s.pos - 1) h2 h1 (by omega)
+      by_cases h6 : e.toks[s.pos - 2].ty = 6
+      · rw [if_pos h6, if_neg (by have := hc h6; omega)]
+        intro h; cases h
+      · rw [if_neg h6, if_neg (by omega)]
+        intro h; cases h
+    · rw [if_neg hf]
+      intro h; cases h
+  · rw [getElem?_pos e.toks 0 hne]
+    dsimp only
+    have := hk.line_pos 0 hne
+    rw [if_neg (by omega)]
+    intro h; cases h
+
+theorem Safe.bind_lineOffset {β} {c : Cfg e} {lo : Nat} {lg : List Diag} {f : Nat → PM β} {s : PState}
+    {Q : β → PState → Prop} (h : ∀ n, Safe c lo lg (f n e s) Q) :
+    Safe c lo lg ((getLineOffset >>= f) e s) Q := by
+  rw [bind_eq]
+  rcases getLineOffset_cases e s with h1 | ⟨n, h1⟩
+  · rw [h1]
+    intro hnp
+    exact getLineOffset_ne_panic e s (c.tok hnp) (c.ne hnp) h1
+  · rw [h1]; exact h n
+
+theorem logWarning_eval (k : DK) (e : Env) (s : PState) :
+    logWarning k e s = .ok () { s with log := ⟨k, s.lastLine⟩ :: s.log } := rfl
+
+theorem errorOrLog_safe (c : Cfg e) (k : DK) (s : PState) (hp : c.Pre s) :
+    Safe c s.pos s.log (errorOrLog k e s) (fun _ s' => s'.pos = s.pos) := by
+  unfold errorOrLog
+  simp only [getEnv_bind]
+  split
+  · exact ⟨hp, c.L_refl _⟩
+  · rename_i h
+    rw [logWarning_eval]
+    refine ⟨fun hpb => ⟨Nat.le_refl _, hp hpb⟩, c.L_log _ _ (.inl (by simpa using h)), rfl⟩
+
+theorem errorOrLogNoLine_safe (c : Cfg e) (k : DK) (s : PState) (hp : c.Pre s) :
+    Safe c s.pos s.log (errorOrLogNoLine k e s) (fun _ s' => s'.pos = s.pos) := by
+  unfold errorOrLogNoLine
+  simp only [getEnv_bind]
+  split
+  · exact ⟨hp, c.L_refl _⟩
+  · rename_i h
+    refine ⟨fun hpb => ⟨Nat.le_refl _, hp hpb⟩, c.L_log _ _ (.inl (by simpa using h)), rfl⟩
+
+theorem logWarning_safe (c : Cfg e) (k : DK) (s : PState) (hp : c.Pre s)
+    (hk : k = .blockRefDeprecated ∨ k = .enumRefDeprecated) :
+    Safe c s.pos s.log (logWarning k e s) (fun _ s' => s'.pos = s.pos) := by
+  rw [logWarning_eval]
+  exact ⟨fun hpb => ⟨Nat.le_refl _, hp hpb⟩, c.L_log _ _ (.inr hk), rfl⟩
+
+theorem expectTokenAux_safe (c : Cfg e) (ctx : Ctx) (ty : Nat) : ∀ (fuel : Nat) (s : PState), c.Pre s →
+    Safe c s.pos s.log (expectTokenAux ctx ty fuel e s)
+      (fun t s' => s.pos + 1 ≤ s'.pos ∧ e.toks[s'.pos - 1]? = some t ∧ t.ty = ty)
+  | 0, _, _ => trivial
+  | fuel + 1, s, hp => by
+    rw [expectTokenAux]
+    refine Safe.bind' (c.L_refl _) (getToken_safe c ctx s hp) ?_
+    intro t s1 hpos hl hq
+    obtain ⟨h1, h2⟩ := hq
+    split
+    · refine Safe.weaken (fun hpb => (hpos hpb).1) hl (expectTokenAux_safe c ctx ty fuel s1 (fun hpb => (hpos hpb).2)) ?_
+      intro a s2 hq
+      refine ⟨?_, hq.2⟩
+      omega
+    · split
+      · exact Safe.fail (fun hpb => (hpos hpb).2) hl
+      · rename_i hty hty2
+        refine Safe.pure hpos hl ⟨by omega, ?_, by simpa using hty2⟩
+        rw [h1]; simpa using h2
+
+theorem expectToken_safe (c : Cfg e) (ctx : Ctx) (ty : Nat) (s : PState) (hp : c.Pre s) :
+    Safe c s.pos s.log (expectToken ctx ty e s)
+      (fun t s' => s.pos + 1 ≤ s'.pos ∧ e.toks[s'.pos - 1]? = some t ∧ t.ty = ty) := by
+  unfold expectToken
+  simp only [getEnv_bind]
+  exact expectTokenAux_safe c ctx ty _ s hp
+
+/-- `if p then errorOrLog k` followed by the rest (`__do_jp`) -/
+theorem Safe.condE {β} {c : Cfg e} {lo : Nat} {lg : List Diag} {p : Prop} [Decidable p] {k : DK} {f : PUnit → PM β}
+    {s : PState} {Q : β → PState → Prop} (hp : c.Pre s) (hl : c.L lg s.log)
+    (h : ∀ s1, s1.pos = s.pos → c.L lg s1.log → Safe c lo lg (f () e s1) Q) :
+    Safe c lo lg ((if p then errorOrLog k >>= f else f ()) e s) Q := by
+  split
+  · refine Safe.bind' hl (errorOrLog_safe c k s hp) ?_
+    intro _ s1 _ hl1 hq
+    exact h s1 hq hl1
+  · exact h s rfl hl
+
+theorem Safe.condW {β} {c : Cfg e} {lo : Nat} {lg : List Diag} {p : Prop} [Decidable p] {k : DK} {f : PUnit → PM β}
+    {s : PState} {Q : β → PState → Prop} (hp : c.Pre s) (hl : c.L lg s.log)
+    (hk : k = .blockRefDeprecated ∨ k = .enumRefDeprecated)
+    (h : ∀ s1, s1.pos = s.pos → c.L lg s1.log → Safe c lo lg (f () e s1) Q) :
+    Safe c lo lg ((if p then logWarning k >>= f else f ()) e s) Q := by
+  split
+  · refine Safe.bind' hl (logWarning_safe c k s hp hk) ?_
+    intro _ s1 _ hl1 hq
+    exact h s1 hq hl1
+  · exact h s rfl hl
+
+theorem Safe.condF {β} {c : Cfg e} {lo : Nat} {lg : List Diag} {p : Prop} [Decidable p] {k : DK} {f : PUnit → PM β}
+    {s : PState} {Q : β → PState → Prop} (hp : c.Pre s) (hl : c.L lg s.log)
+    (h : Safe c lo lg (f () e s) Q) :
+    Safe c lo lg ((if p then (A2l.Tree.fail k : PM PUnit) >>= f else f ()) e s) Q := by
+  split
+  · exact ⟨hp, hl⟩
+  · exact h
+
+theorem getIdentifier_safe (c : Cfg e) (ctx : Ctx) (s : PState) (hp : c.Pre s) :
+    Safe c s.pos s.log (getIdentifier ctx e s) (fun _ s' => s.pos + 1 ≤ s'.pos) := by
+  unfold getIdentifier
+  refine Safe.bind' (c.L_refl _) (expectToken_safe c ctx 0 s hp) ?_
+  intro t s1 hpos hl hq
+  obtain ⟨h1, h2, h3⟩ := hq
+  cases htext : t.text with
+  | nil =>
+    intro hnp
+    have hlt := lt_of_getElem?_some h2
+    rw [getElem?_pos e.toks _ hlt] at h2
+    have := (c.tok hnp).ident_ne _ hlt
+    simp only [Option.some.injEq] at h2
+    rw [h2] at this
+    exact this h3 htext
+  | cons ch tl =>
+    dsimp only
+    refine Safe.condE (fun hpb => (hpos hpb).2) hl ?_
+    intro s2 hpos2 hl2
+    refine Safe.pure ?_ hl2 (by omega)
+    pb_omega
+
+theorem getString_safe (c : Cfg e) (ctx : Ctx) (s : PState) (hp : c.Pre s) :
+    Safe c s.pos s.log (getString ctx e s) (fun _ s' => s.pos + 1 ≤ s'.pos) := by
+  unfold getString
+  simp only [peekToken_bind]
+  generalize e.toks[s.pos]? = o
+  split
+  · refine Safe.bind' (c.L_refl _) (getIdentifier_safe c ctx s hp) ?_
+    intro text s1 hpos hl hq
+    refine Safe.bind' hl (errorOrLog_safe c _ s1 (fun hpb => (hpos hpb).2)) ?_
+    intro _ s2 hpos2 hl2 hq2
+    refine Safe.pure ?_ hl2 (by omega)
+    pb_omega
+  · refine Safe.bind' (c.L_refl _) (expectToken_safe c ctx 4 s hp) ?_
+    intro t s1 hpos hl hq
+    obtain ⟨r, hr, _⟩ := unescape_okL (stripQuotes t.text)
+    rw [hr]
+    exact Safe.pure hpos hl hq.1
+
+theorem getStringMaxlen_safe (c : Cfg e) (ctx : Ctx) (n : Nat) (s : PState) (hp : c.Pre s) :
+    Safe c s.pos s.log (getStringMaxlen ctx n e s) (fun _ s' => s.pos + 1 ≤ s'.pos) := by
+  unfold getStringMaxlen
+  refine Safe.bind' (c.L_refl _) (getString_safe c ctx s hp) ?_
+  intro text s1 hpos hl hq
+  dsimp only
+  refine Safe.condE (fun hpb => (hpos hpb).2) hl ?_
+  intro s2 hpos2 hl2
+  refine Safe.pure ?_ hl2 (by omega)
+  pb_omega
+
+theorem getInteger_safe (c : Cfg e) (ctx : Ctx) (w : Nat) (s : PState) (hp : c.Pre s) :
+    Safe c s.pos s.log (getInteger ctx w e s) (fun _ s' => s.pos + 1 ≤ s'.pos) := by
+  unfold getInteger
+  refine Safe.bind' (c.L_refl _) (expectToken_safe c ctx 5 s hp) ?_
+  intro t s1 hpos hl hq
+  cases parseInt (intTyOf w) t.text with
+  | none => exact Safe.fail (fun hpb => (hpos hpb).2) hl
+  | some r => exact Safe.pure hpos hl hq.1
+
+theorem getDouble_safe (c : Cfg e) (ctx : Ctx) (s : PState) (hp : c.Pre s) :
+    Safe c s.pos s.log (getDouble ctx e s) (fun _ s' => s.pos + 1 ≤ s'.pos) := by
+  unfold getDouble
+  refine Safe.bind' (c.L_refl _) (expectToken_safe c ctx 5 s hp) ?_
+  intro t s1 hpos hl hq
+  cases t.fl with
+  | none => exact Safe.fail (fun hpb => (hpos hpb).2) hl
+  | some r => exact Safe.pure hpos hl hq.1
+
+theorem parseEnum_safe (c : Cfg e) (items : List EnumItem) (ctx : Ctx) (s : PState) (hp : c.Pre s) :
+    Safe c s.pos s.log (parseEnum items ctx e s) (fun _ s' => s.pos + 1 ≤ s'.pos) := by
+  unfold parseEnum
+  refine Safe.bind' (c.L_refl _) (getIdentifier_safe c ctx s hp) ?_
+  intro name s1 hpos hl hq
+  simp only [getEnv_bind, getState_bind]
+  generalize lookupEnumItem items _ = o
+  split
+  · refine Safe.condE (fun hpb => (hpos hpb).2) hl ?_
+    intro s2 hpos2 hl2
+    refine Safe.condW (fun hpb => by have := (hpos hpb).2; omega) hl2 (.inr rfl) ?_
+    intro s3 hpos3 hl3
+    refine Safe.pure ?_ hl3 (by omega)
+    pb_omega
+  · exact Safe.fail (fun hpb => (hpos hpb).2) hl
+
+def NTQ (s : PState) : BlockContent → PState → Prop
+  | .comment _ _, s' => s.pos + 1 ≤ s'.pos
+  | .block _ isB _, s' => s.pos + (if isB then 2 else 1) ≤ s'.pos
+  | .none, _ => True
+
+theorem getNextTagOrComment_safe (c : Cfg e) (ctx : Ctx) (s : PState) (hp : c.Pre s) :
+    Safe c s.pos s.log (getNextTagOrComment ctx e s) (NTQ s) := by
+  unfold getNextTagOrComment
+  simp only [getTokenpos_bind, peekToken_bind]
+  generalize ho : e.toks[s.pos]? = o
+  split
+  · simp only [modifyState_bind]
+    refine Safe.bind_lineOffset ?_
+    intro off
+    have := lt_of_getElem?_some ho
+    refine Safe.pure ?_ (c.L_refl _) ?_
+    · intro _; show s.pos ≤ s.pos + 1 ∧ s.pos + 1 ≤ e.toks.size; omega
+    · show s.pos + 1 ≤ s.pos + 1; omega
+  · refine Safe.bind' (c.L_refl _) (getToken_safe c ctx s hp) ?_
+    intro t s1 hpos hl hq
+    refine Safe.bind_lineOffset ?_
+    intro off
+    refine Safe.bind_attempt hl (expectToken_safe c ctx 0 s1 (fun hpb => (hpos hpb).2)) ?_ ?_
+    · intro tok s2 hpos2 hl2 hq2
+      refine Safe.pure ?_ hl2 ?_
+      · pb_omega
+      · show s.pos + 2 ≤ s2.pos; omega
+    · intro d s2 hpos2 hl2
+      simp only [setTokenpos_bind]
+      exact ⟨hp, hl2⟩
+  · refine Safe.bind_attempt (c.L_refl _) (expectToken_safe c ctx 0 s hp) ?_ ?_
+    · intro tok s1 hpos1 hl1 hq1
+      refine Safe.bind_lineOffset ?_
+      intro off
+      refine Safe.pure hpos1 hl1 ?_
+      show s.pos + 1 ≤ s1.pos; omega
+    · intro d s1 hpos1 hl1
+      refine Safe.bind_lineOffset ?_
+      intro off
+      simp only [setTokenpos_bind]
+      exact Safe.pure (fun hpb => ⟨Nat.le_refl _, hp hpb⟩) hl1 trivial
+theorem skipUnknownLoop_safe (c : Cfg e) (ctx : Ctx) (itemTag : List Char) (isB : Bool) (stop : List Nat)
+    (lo : Nat) (lg : List Diag) : ∀ (fuel : Nat) (balance : Int) (s : PState),
+    (c.PB → lo ≤ s.pos ∧ s.pos ≤ e.toks.size) → (c.PB → ¬ isB = true → (lo : Int) + balance ≤ s.pos) →
+    c.L lg s.log →
+    Safe c lo lg (skipUnknownLoop ctx itemTag isB stop balance fuel e s) (fun _ _ => True)
+  | 0, _, _, _, _, _ => trivial
+  | fuel + 1, balance, s, hp, hp2, hl => by
+    rw [skipUnknownLoop]
+    refine Safe.bind' hl (getToken_safe c ctx s (fun hpb => (hp hpb).2)) ?_
+    intro t s1 hpos1 hl1 hq1
+    obtain ⟨hq1, -⟩ := hq1
+    have hp1' : c.PB → lo ≤ s1.pos ∧ s1.pos ≤ e.toks.size := by
+      intro hpb; have := hp hpb; have := hpos1 hpb; omega
+    generalize t.ty = ty
+    split
+    · refine skipUnknownLoop_safe c ctx itemTag isB stop lo lg fuel _ s1 hp1' ?_ hl1
+      intro hpb hb; have := hp2 hpb hb; omega
+    · split
+      · rw [undo_eval]
+        split
+        · omega
+        · refine ⟨?_, hl1, trivial⟩
+          intro hpb; have := hp hpb; show lo ≤ s1.pos - 1 ∧ s1.pos - 1 ≤ e.toks.size; omega
+      · refine skipUnknownLoop_safe c ctx itemTag isB stop lo lg fuel _ s1 hp1' ?_ hl1
+        intro hpb hb; have := hp2 hpb hb; omega
+    · split
+      · split
+        · split
+          · exact Safe.pure hp1' hl1 trivial
+          · exact Safe.fail (fun hpb => (hp1' hpb).2) hl1
+        · refine skipUnknownLoop_safe c ctx itemTag isB stop lo lg fuel _ s1 hp1' ?_ hl1
+          intro hpb hb; have := hp2 hpb hb; omega
+      · rename_i hb
+        split
+        · rename_i hbal
+          simp only [undo_bind]
+          split
+          · omega
+          · split
+            · rename_i hb1
+              rw [undo_eval]
+              dsimp only
+              split
+              · intro hnp
+                have hpb := c.np_pb hnp
+                have := hp2 hpb hb
+                omega
+              · refine ⟨?_, hl1, trivial⟩
+                intro hpb; have := hp hpb; have := hp2 hpb hb
+                show lo ≤ s1.pos - 1 - 1 ∧ s1.pos - 1 - 1 ≤ e.toks.size; omega
+            · refine Safe.pure ?_ hl1 trivial
+              intro hpb; have := hp hpb
+              show lo ≤ s1.pos - 1 ∧ s1.pos - 1 ≤ e.toks.size; omega
+        · refine skipUnknownLoop_safe c ctx itemTag isB stop lo lg fuel _ s1 hp1' ?_ hl1
+          intro hpb hb; have := hp2 hpb hb; omega
+    · split
+      · exact Safe.fail (fun hpb => (hp1' hpb).2) hl1
+      · refine skipUnknownLoop_safe c ctx itemTag isB stop lo lg fuel _ s1 hp1' ?_ hl1
+        intro hpb hb; have := hp2 hpb hb; omega
+theorem handleUnknown_safe (c : Cfg e) (ctx : Ctx) (itemTag : List Char) (isB : Bool) (stop : List Nat)
+    (s : PState) (hp : c.Pre s) :
+    Safe c s.pos s.log (handleUnknownTaggedstructTag ctx itemTag isB stop e s) (fun _ _ => True) := by
+  unfold handleUnknownTaggedstructTag
+  refine Safe.bind' (c.L_refl _) (errorOrLog_safe c _ s hp) ?_
+  intro _ s1 hpos1 hl1 hq1
+  refine Safe.bind' hl1 (getToken_safe c ctx s1 (fun hpb => (hpos1 hpb).2)) ?_
+  intro t s2 hpos2 hl2 hq2
+  obtain ⟨hq2, -⟩ := hq2
+  simp only [undo_bind, getEnv_bind]
+  split
+  · omega
+  · refine skipUnknownLoop_safe c ctx itemTag isB stop s.pos s.log _ _ _ ?_ ?_ hl2
+    · intro hpb; have := hpos2 hpb
+      show s.pos ≤ s2.pos - 1 ∧ s2.pos - 1 ≤ e.toks.size; omega
+    · intro hpb hb
+      show (s.pos : Int) + (if isB = true then 1 else 0) ≤ ((s2.pos - 1 : Nat) : Int)
+      rw [if_neg hb]; omega
+/-! ## the table -/
+
+theorem lookup_mem {tbl : Table} {ty : Nat} {d : TyDef} (h : tbl.lookup ty = some d) : ∃ en ∈ tbl, en.def_ = d := by
+  unfold Table.lookup at h
+  cases hf : List.find? (fun e => e.name == ty) tbl with
+  | none => rw [hf] at h; cases h
+  | some en =>
+    rw [hf] at h
+    exact ⟨en, List.mem_of_find?_eq_some hf, by simpa using h⟩
+
+theorem tableOk_block {tbl : Table} {k : Known} {ty : Nat} {isB : Bool} {items : List ItemTy} {arms : List Arm}
+    {hT : Bool} (h : tableOk tbl k = true) (hl : tbl.lookup ty = some (.block isB items arms hT)) :
+    items.all (itemOk tbl) = true ∧ arms.all (fun a => tyOk tbl a.ty) = true := by
+  obtain ⟨en, hmem, hd⟩ := lookup_mem hl
+  simp only [tableOk, Bool.and_eq_true] at h
+  have := List.all_eq_true.1 h.1.1 en hmem
+  rw [hd] at this
+  simp only [Bool.and_eq_true] at this
+  exact this
+
+theorem itemOk_structRef {tbl : Table} {ty : Nat} (h : itemOk tbl (.structRef ty) = true) : tyOk tbl ty = true := by
+  unfold itemOk at h
+  unfold tyOk
+  split at h
+  · rename_i h1; rw [h1]
+  · cases h
+
+theorem itemOk_enumRef {tbl : Table} {ty : Nat} (h : itemOk tbl (.enumRef ty) = true) :
+    ∃ items, tbl.lookup ty = some (.enum items) := by
+  unfold itemOk at h
+  split at h
+  · rename_i items h1; exact ⟨items, h1⟩
+  · cases h
+/-! ## the mutual block -/
+
+def T {α : Type} : α → PState → Prop := fun _ _ => True
+
+structure AllSafe (c : Cfg e) (fuel : Nat) : Prop where
+  item : ∀ ctx it s, (c.NP → itemOk e.table it = true) → c.Pre s →
+    Safe c s.pos s.log (parseItem fuel ctx it e s) T
+  arr : ∀ ctx of n s, (c.NP → itemOk e.table of = true) → c.Pre s →
+    Safe c s.pos s.log (parseArr fuel ctx of n e s) T
+  seq : ∀ ctx of stop acc s, (c.NP → itemOk e.table of = true) → c.Pre s →
+    Safe c s.pos s.log (parseSeq fuel ctx of stop acc e s) T
+  items : ∀ ctx its s, (c.NP → its.all (itemOk e.table) = true) → c.Pre s →
+    Safe c s.pos s.log (parseItems fuel ctx its e s) T
+  tagged : ∀ ctx arms pib ch cm s, (c.NP → arms.all (fun a => tyOk e.table a.ty) = true) → c.Pre s →
+    Safe c s.pos s.log (parseTagged fuel ctx arms pib ch cm e s) T
+  type : ∀ ty ctx off s, (c.NP → tyOk e.table ty = true) → c.Pre s →
+    Safe c s.pos s.log (parseType fuel ty ctx off e s) T
+
+theorem Safe.ite {α} {c : Cfg e} {lo : Nat} {lg : List Diag} {p : Prop} [Decidable p] {a b : PM α}
+    {s : PState} {Q : α → PState → Prop}
+    (h1 : p → Safe c lo lg (a e s) Q) (h2 : ¬ p → Safe c lo lg (b e s) Q) :
+    Safe c lo lg ((if p then a else b) e s) Q := by
+  split
+  · exact h1 ‹_›
+  · exact h2 ‹_›
+
+theorem allSafe_zero (c : Cfg e) : AllSafe c 0 := by
+  constructor
+  · intro ctx it s _ _; rw [parseItem]; trivial
+  · intro ctx of n s _ _; rw [parseArr]; trivial
+  · intro ctx of stop acc s _ _; rw [parseSeq]; trivial
+  · intro ctx its s _ _; rw [parseItems]; trivial
+  · intro ctx arms pib ch cm s _ _; rw [parseTagged]; trivial
+  · intro ty ctx off s _ _; rw [parseType]; trivial
+
+/-- a scalar read followed by `get_line_offset` -/
+theorem scalar_then_offset {α} (c : Cfg e) {m : PM α} {g : α → Nat → Val} {s : PState}
+    (h : Safe c s.pos s.log (m e s) (fun _ s' => s.pos + 1 ≤ s'.pos)) :
+    Safe c s.pos s.log ((m >>= fun v => getLineOffset >>= fun off => pure (g v off)) e s) T := by
+  refine Safe.bind' (c.L_refl _) h ?_
+  intro v s1 hpos hl _
+  refine Safe.bind_lineOffset ?_
+  intro off
+  exact Safe.pure hpos hl trivial
+
+theorem parseItem_step (c : Cfg e) {fuel : Nat} (ih : AllSafe c fuel) (ctx : Ctx) (it : ItemTy) (s : PState)
+    (hit : c.NP → itemOk e.table it = true) (hp : c.Pre s) :
+    Safe c s.pos s.log (parseItem (fuel + 1) ctx it e s) T := by
+  cases it with
+  | ident => rw [parseItem]; exact scalar_then_offset c (getIdentifier_safe c ctx s hp)
+  | string => rw [parseItem]; exact scalar_then_offset c (getString_safe c ctx s hp)
+  | double => rw [parseItem]; exact scalar_then_offset c (getDouble_safe c ctx s hp)
+  | float => rw [parseItem]; exact scalar_then_offset c (getDouble_safe c ctx s hp)
+  | int w =>
+    rw [parseItem]
+    refine Safe.bind' (c.L_refl _) (getInteger_safe c ctx w s hp) ?_
+    intro ⟨v, hex⟩ s1 hpos hl _
+    refine Safe.bind_lineOffset ?_
+    intro off
+    exact Safe.pure hpos hl trivial
+  | strMax n =>
+    rw [parseItem]
+    refine Safe.bind' (c.L_refl _) (getStringMaxlen_safe c ctx n s hp) ?_
+    intro v s1 hpos hl _
+    exact Safe.pure hpos hl trivial
+  | enumRef ty =>
+    rw [parseItem]
+    simp only [getEnv_bind]
+    generalize hlk : e.table.lookup ty = o
+    split
+    · exact scalar_then_offset c (parseEnum_safe c _ ctx s hp)
+    · rename_i hne
+      intro hnp
+      obtain ⟨items, h⟩ := itemOk_enumRef (hit hnp)
+      exact hne items (hlk ▸ h)
+  | structRef ty =>
+    rw [parseItem]
+    exact ih.type ty ctx 0 s (fun hnp => itemOk_structRef (hit hnp)) hp
+  | arr of dim =>
+    rw [parseItem]
+    refine Safe.bind' (c.L_refl _) (ih.arr ctx of dim s hit hp) ?_
+    intro v s1 hpos hl _
+    exact Safe.pure hpos hl trivial
+  | seq of stop =>
+    rw [parseItem]
+    refine Safe.bind' (c.L_refl _) (ih.seq ctx of stop [] s hit hp) ?_
+    intro v s1 hpos hl _
+    exact Safe.pure hpos hl trivial
+
+theorem parseArr_step (c : Cfg e) {fuel : Nat} (ih : AllSafe c fuel) (ctx : Ctx) (of : ItemTy) (n : Nat) (s : PState)
+    (hit : c.NP → itemOk e.table of = true) (hp : c.Pre s) :
+    Safe c s.pos s.log (parseArr (fuel + 1) ctx of n e s) T := by
+  cases n with
+  | zero => rw [parseArr]; exact Safe.pure (fun hpb => ⟨Nat.le_refl _, hp hpb⟩) (c.L_refl _) trivial
+  | succ n =>
+    rw [parseArr]
+    refine Safe.bind' (c.L_refl _) (ih.item ctx of s hit hp) ?_
+    intro v s1 hpos hl _
+    refine Safe.bind' hl (ih.arr ctx of n s1 hit (fun hpb => (hpos hpb).2)) ?_
+    intro vs s2 hpos2 hl2 _
+    refine Safe.pure ?_ hl2 trivial
+    pb_omega
+
+theorem parseItems_step (c : Cfg e) {fuel : Nat} (ih : AllSafe c fuel) (ctx : Ctx) (its : List ItemTy) (s : PState)
+    (hit : c.NP → its.all (itemOk e.table) = true) (hp : c.Pre s) :
+    Safe c s.pos s.log (parseItems (fuel + 1) ctx its e s) T := by
+  cases its with
+  | nil => rw [parseItems]; exact Safe.pure (fun hpb => ⟨Nat.le_refl _, hp hpb⟩) (c.L_refl _) trivial
+  | cons it its =>
+    rw [parseItems]
+    have h1 : c.NP → itemOk e.table it = true := fun hnp => by
+      have := hit hnp; simp only [List.all_cons, Bool.and_eq_true] at this; exact this.1
+    have h2 : c.NP → its.all (itemOk e.table) = true := fun hnp => by
+      have := hit hnp; simp only [List.all_cons, Bool.and_eq_true] at this; exact this.2
+    refine Safe.bind' (c.L_refl _) (ih.item ctx it s h1 hp) ?_
+    intro v s1 hpos hl _
+    refine Safe.bind' hl (ih.items ctx its s1 h2 (fun hpb => (hpos hpb).2)) ?_
+    intro vs s2 hpos2 hl2 _
+    refine Safe.pure ?_ hl2 trivial
+    pb_omega
+
+theorem parseSeq_step (c : Cfg e) {fuel : Nat} (ih : AllSafe c fuel) (ctx : Ctx) (of : ItemTy) (stop : List Nat)
+    (acc : List Val) (s : PState) (hit : c.NP → itemOk e.table of = true) (hp : c.Pre s) :
+    Safe c s.pos s.log (parseSeq (fuel + 1) ctx of stop acc e s) T := by
+  rw [parseSeq]
+  simp only [getTokenpos_bind]
+  refine Safe.bind_attempt (c.L_refl _) (ih.item ctx of s hit hp) ?_ ?_
+  · intro v s1 hpos hl _
+    simp only [getEnv_bind, getState_bind]
+    refine Safe.ite ?_ ?_
+    · intro _
+      simp only [setTokenpos_bind]
+      exact Safe.pure (fun hpb => ⟨Nat.le_refl _, hp hpb⟩) hl trivial
+    · intro _
+      exact Safe.weaken (fun hpb => (hpos hpb).1) hl (ih.seq ctx of stop (v :: acc) s1 hit (fun hpb => (hpos hpb).2))
+        (fun _ _ h => h)
+  · intro d s1 hpos hl
+    simp only [setTokenpos_bind]
+    exact Safe.pure (fun hpb => ⟨Nat.le_refl _, hp hpb⟩) hl trivial
+
+theorem parseTagged_step (c : Cfg e) {fuel : Nat} (ih : AllSafe c fuel) (ctx : Ctx) (arms : List Arm) (pib : Bool)
+    (ch : List (List Val)) (cm : List Cmt) (s : PState)
+    (harms : c.NP → arms.all (fun a => tyOk e.table a.ty) = true) (hp : c.Pre s) :
+    Safe c s.pos s.log (parseTagged (fuel + 1) ctx arms pib ch cm e s) T := by
+  rw [parseTagged]
+  refine Safe.bind' (c.L_refl _) (getNextTagOrComment_safe c ctx s hp) ?_
+  intro bc s1 hpos hl hq
+  cases bc with
+  | comment tok off =>
+    dsimp only
+    refine Safe.ite ?_ ?_
+    · intro _
+      simp only [getNextId_bind]
+      exact Safe.weaken (fun hpb => (hpos hpb).1) hl
+        (ih.tagged ctx arms pib ch _ _ harms (fun hpb => (hpos hpb).2)) (fun _ _ h => h)
+    · intro _
+      exact Safe.weaken (fun hpb => (hpos hpb).1) hl
+        (ih.tagged ctx arms pib ch _ _ harms (fun hpb => (hpos hpb).2)) (fun _ _ h => h)
+  | none => dsimp only; exact Safe.pure hpos hl trivial
+  | block tok isB off =>
+    dsimp -zeta only
+    generalize hfi : List.findIdx? (fun x => x.tag == tok.sym) arms = oi
+    cases oi with
+    | none =>
+      dsimp -zeta only
+      have hp1 : c.Pre s1 := fun hpb => (hpos hpb).2
+      refine Safe.ite ?_ ?_
+      · intro _
+        refine Safe.bind' hl (handleUnknown_safe c ctx tok.text isB _ s1 hp1) ?_
+        intro _ s2 hpos2 hl2 _
+        exact Safe.weaken (fun hpb => by have := hpos hpb; have := hpos2 hpb; omega) hl2
+          (ih.tagged ctx arms pib ch cm s2 harms (fun hpb => (hpos2 hpb).2)) (fun _ _ h => h)
+      · intro _
+        cases isB with
+        | false =>
+          simp only [NTQ, Bool.false_eq_true, if_false] at hq
+          simp only [Bool.false_eq_true, if_false, undo_bind]
+          split
+          · omega
+          · refine Safe.pure ?_ hl trivial
+            intro hpb; have := hpos hpb
+            show s.pos ≤ s1.pos - 1 ∧ s1.pos - 1 ≤ e.toks.size; omega
+        | true =>
+          simp only [NTQ, if_true] at hq
+          simp only [if_true, undo_bind]
+          split
+          · omega
+          · split
+            · omega
+            · refine Safe.pure ?_ hl trivial
+              intro hpb; have := hpos hpb
+              show s.pos ≤ s1.pos - 1 - 1 ∧ s1.pos - 1 - 1 ≤ e.toks.size; omega
+    | some i =>
+      dsimp -zeta only
+      obtain ⟨hi, -, -⟩ := List.findIdx?_eq_some_iff_getElem.1 hfi
+      rw [List.getElem?_eq_getElem hi]
+      dsimp -zeta only
+      have harm : c.NP → tyOk e.table arms[i].ty = true := fun hnp =>
+        List.all_eq_true.1 (harms hnp) _ (List.getElem_mem hi)
+      generalize arms[i] = arm at harm
+      have hp1 : c.Pre s1 := fun hpb => (hpos hpb).2
+      refine Safe.condF hp1 hl ?_
+      refine Safe.condF hp1 hl ?_
+      simp only [getState_bind]
+      refine Safe.condE hp1 hl ?_
+      intro s2 hpos2 hl2
+      simp only [getState_bind]
+      have hp2 : c.Pre s2 := fun hpb => by have := hp1 hpb; omega
+      refine Safe.condW hp2 hl2 (.inl rfl) ?_
+      intro s3 hpos3 hl3
+      have hp3 : c.Pre s3 := fun hpb => by have := hp1 hpb; omega
+      refine Safe.bind' hl3 (ih.type arm.ty _ off s3 harm hp3) ?_
+      intro v s4 hpos4 hl4 _
+      have hp4 : c.Pre s4 := fun hpb => (hpos4 hpb).2
+      have hlo4 : c.PB → s.pos ≤ s4.pos := fun hpb => by have := hpos hpb; have := hpos4 hpb; omega
+      refine Safe.ite ?_ ?_
+      · intro _
+        exact Safe.weaken hlo4 hl4 (ih.tagged ctx arms pib _ cm s4 harms hp4) (fun _ _ h => h)
+      · intro _
+        refine Safe.condE hp4 hl4 ?_
+        intro s5 hpos5 hl5
+        exact Safe.weaken (fun hpb => by have := hlo4 hpb; omega) hl5
+          (ih.tagged ctx arms pib _ cm s5 harms (fun hpb => by have := hp4 hpb; omega)) (fun _ _ h => h)
+theorem foldlM_safe {X : Type} (c : Cfg e) (F : Unit → X → PM Unit)
+    (hF : ∀ u x s, c.Pre s → Safe c s.pos s.log (F u x e s) (fun _ s' => s'.pos = s.pos)) :
+    ∀ (l : List X) (u : Unit) (s : PState), c.Pre s →
+      Safe c s.pos s.log (List.foldlM F u l e s) (fun _ s' => s'.pos = s.pos)
+  | [], u, s, hp => by
+    rw [List.foldlM_nil]
+    exact Safe.pure (fun hpb => ⟨Nat.le_refl _, hp hpb⟩) (c.L_refl _) rfl
+  | x :: l, u, s, hp => by
+    rw [List.foldlM_cons]
+    refine Safe.bind' (c.L_refl _) (hF u x s hp) ?_
+    intro u' s1 hpos hl hq
+    refine Safe.weaken (fun hpb => (hpos hpb).1) hl (foldlM_safe c F hF l u' s1 (fun hpb => (hpos hpb).2)) ?_
+    intro _ s2 h; omega
+
+theorem Safe.ite_bind {α β} {c : Cfg e} {lo : Nat} {lg : List Diag} {p : Prop} [Decidable p] {a b : PM α}
+    {f : α → PM β} {s : PState} {Q : β → PState → Prop}
+    (h : Safe c lo lg (((if p then a else b) >>= f) e s) Q) :
+    Safe c lo lg ((if p then a >>= f else b >>= f) e s) Q := by
+  split
+  · rename_i hp; rw [if_pos hp] at h; exact h
+  · rename_i hp; rw [if_neg hp] at h; exact h
+
+theorem parseType_step (c : Cfg e) {fuel : Nat} (ih : AllSafe c fuel) (ty : Nat) (ctx : Ctx) (off : Nat) (s : PState)
+    (hty : c.NP → tyOk e.table ty = true) (hp : c.Pre s) :
+    Safe c s.pos s.log (parseType (fuel + 1) ty ctx off e s) T := by
+  rw [parseType]
+  simp only [getEnv_bind]
+  generalize hlk : e.table.lookup ty = o
+  split
+  · rename_i isB items arms hT
+    simp -zeta only [getNextId_bind]
+    obtain ⟨hitems, harms⟩ : (c.NP → items.all (itemOk e.table) = true) ∧
+        (c.NP → arms.all (fun a => tyOk e.table a.ty) = true) :=
+      ⟨fun hnp => (tableOk_block (c.tbl hnp) hlk).1, fun hnp => (tableOk_block (c.tbl hnp) hlk).2⟩
+    refine Safe.bind' (s := { s with seqId := s.seqId + 1 }) (c.L_refl _) (ih.items ctx items _ hitems hp) ?_
+    intro fields s1 hpos1 hl1 _
+    refine Safe.ite_bind ?_
+    refine Safe.bind' (Q1 := T) hl1 ?_ ?_
+    · refine Safe.ite ?_ ?_
+      · intro _; exact ih.tagged ctx arms isB _ _ s1 harms (fun hpb => (hpos1 hpb).2)
+      · intro _; exact Safe.pure (fun hpb => ⟨Nat.le_refl _, (hpos1 hpb).2⟩) (c.L_refl _) trivial
+    · intro x s2 hpos2 hl2 _
+      replace hpos1 : c.PB → s.pos ≤ s1.pos ∧ s1.pos ≤ e.toks.size := hpos1
+      refine Safe.bind' hl2 (foldlM_safe c _ ?_ _ _ s2 (fun hpb => (hpos2 hpb).2)) ?_
+      · intro u ac s' hp'
+        refine Safe.ite ?_ ?_
+        · intro _
+          refine Safe.ite ?_ ?_
+          · intro _; exact errorOrLog_safe c _ s' hp'
+          · intro _; exact ⟨hp', c.L_refl _⟩
+        · intro _; exact Safe.pure (fun hpb => ⟨Nat.le_refl _, hp' hpb⟩) (c.L_refl _) rfl
+      · intro _ s3 hpos3 hl3 hq3
+        have hlo3 : c.PB → s.pos ≤ s3.pos ∧ s3.pos ≤ e.toks.size := fun hpb => by
+          have := hpos1 hpb; have := hpos2 hpb; have := hpos3 hpb; omega
+        refine Safe.ite ?_ ?_
+        · intro _
+          refine Safe.bind' hl3 (expectToken_safe c ctx 2 s3 (fun hpb => (hlo3 hpb).2)) ?_
+          intro _ s4 hpos4 hl4 _
+          refine Safe.bind_lineOffset ?_
+          intro endOff
+          refine Safe.bind' hl4 (getIdentifier_safe c ctx s4 (fun hpb => (hpos4 hpb).2)) ?_
+          intro ident s5 hpos5 hl5 _
+          refine Safe.condE (fun hpb => (hpos5 hpb).2) hl5 ?_
+          intro s6 hpos6 hl6
+          refine Safe.pure ?_ hl6 trivial
+          intro hpb; have := hlo3 hpb; have := hpos4 hpb; have := hpos5 hpb; omega
+        · intro _
+          exact Safe.pure hlo3 hl3 trivial
+  · exact c.special ty ctx off s hp
+  · rename_i h1 h2
+    intro hnp
+    have := hty hnp
+    unfold tyOk at this
+    rw [hlk] at this
+    split at this
+    · exact h1 _ _ _ _ rfl
+    · exact h2 rfl
+    · cases this
+theorem allSafe (c : Cfg e) : ∀ fuel, AllSafe c fuel
+  | 0 => allSafe_zero c
+  | fuel + 1 =>
+    have ih := allSafe c fuel
+    ⟨parseItem_step c ih, parseArr_step c ih, parseSeq_step c ih, parseItems_step c ih, parseTagged_step c ih,
+     parseType_step c ih⟩
+
+/-! ## the three instances -/
+
+/-- the log of the result extends the log at the start -/
+def LExt (a b : List Diag) : Prop := ∃ l, b = l ++ a
+
+/-- ... by deprecation warnings only -/
+def LDep (a b : List Diag) : Prop :=
+  ∃ l, b = l ++ a ∧ ∀ d ∈ l, d.kind = .blockRefDeprecated ∨ d.kind = .enumRefDeprecated
+
+theorem LExt.refl (l : List Diag) : LExt l l := ⟨[], rfl⟩
+theorem LExt.trans {a b c : List Diag} : LExt a b → LExt b c → LExt a c := by
+  rintro ⟨l1, rfl⟩ ⟨l2, rfl⟩; exact ⟨l2 ++ l1, by simp⟩
+theorem LDep.refl (l : List Diag) : LDep l l := ⟨[], rfl, by simp⟩
+theorem LDep.trans {a b c : List Diag} : LDep a b → LDep b c → LDep a c := by
+  rintro ⟨l1, rfl, h1⟩ ⟨l2, rfl, h2⟩
+  refine ⟨l2 ++ l1, by simp, ?_⟩
+  intro d hd
+  rcases List.mem_append.1 hd with h | h
+  · exact h2 d h
+  · exact h1 d h
+
+/-- everything is tracked: cursor range, log, no panic -/
+def cfgFull (e : Env) (hk : TokOk e.toks) (hne : 0 < e.toks.size) (ht : tableOk e.table e.known = true)
+    (hsp : SpecialOk e) : Cfg e where
+  PB := True
+  NP := True
+  L := LExt
+  np_pb := id
+  tok := fun _ => hk
+  ne := fun _ => hne
+  tbl := fun _ => ht
+  L_refl := LExt.refl
+  L_trans := LExt.trans
+  L_log := fun d l _ => ⟨[d], rfl⟩
+  special := by
+    intro ty ctx off s hs
+    obtain ⟨h1, h2, h3⟩ := hsp ty ctx off s (hs trivial)
+    unfold SafeRaw
+    split
+    · rename_i a s' heq
+      obtain ⟨h, h', h''⟩ := h2 _ _ heq
+      exact ⟨fun _ => ⟨h, h'⟩, h'', trivial⟩
+    · rename_i d s' heq
+      obtain ⟨h, h'⟩ := h3 _ _ heq
+      exact ⟨fun _ => h, h'⟩
+    · rename_i heq; exact fun _ => h1 heq
+    · trivial
+
+/-- cursor range and log, panics allowed (no assumption on tokens or table) -/
+def cfgPos (e : Env) (hsp : SpecialOk e) : Cfg e where
+  PB := True
+  NP := False
+  L := LExt
+  np_pb := fun h => h.elim
+  tok := fun h => h.elim
+  ne := fun h => h.elim
+  tbl := fun h => h.elim
+  L_refl := LExt.refl
+  L_trans := LExt.trans
+  L_log := fun d l _ => ⟨[d], rfl⟩
+  special := by
+    intro ty ctx off s hs
+    obtain ⟨h1, h2, h3⟩ := hsp ty ctx off s (hs trivial)
+    unfold SafeRaw
+    split
+    · rename_i a s' heq
+      obtain ⟨h, h', h''⟩ := h2 _ _ heq
+      exact ⟨fun _ => ⟨h, h'⟩, h'', trivial⟩
+    · rename_i d s' heq
+      obtain ⟨h, h'⟩ := h3 _ _ heq
+      exact ⟨fun _ => h, h'⟩
+    · exact fun h => h
+    · trivial
+
+/-- strict mode, the log only -/
+def cfgStrict (e : Env) (hstrict : e.strict = true)
+    (hsp : ∀ ty ctx off s,
+      (∀ v s', e.special ty ctx off e.toks e.strict s = .ok v s' → LDep s.log s'.log) ∧
+      (∀ d s', e.special ty ctx off e.toks e.strict s = .err d s' → LDep s.log s'.log)) : Cfg e where
+  PB := False
+  NP := False
+  L := LDep
+  np_pb := fun h => h.elim
+  tok := fun h => h.elim
+  ne := fun h => h.elim
+  tbl := fun h => h.elim
+  L_refl := LDep.refl
+  L_trans := LDep.trans
+  L_log := by
+    intro d l h
+    refine ⟨[d], rfl, ?_⟩
+    intro d' hd'
+    rw [List.mem_singleton] at hd'
+    subst hd'
+    rcases h with h | h
+    · rw [hstrict] at h; cases h
+    · exact h
+  special := by
+    intro ty ctx off s hs
+    obtain ⟨h2, h3⟩ := hsp ty ctx off s
+    unfold SafeRaw
+    split
+    · rename_i a s' heq
+      exact ⟨fun h => h.elim, h2 _ _ heq, trivial⟩
+    · rename_i d s' heq
+      exact ⟨fun h => h.elim, h3 _ _ heq⟩
+    · exact fun h => h
+    · trivial
+
+/-! ## the shape of a parsed `ASAP2_VERSION` -/
+
+theorem bind_eq_ok {α β} {m : PM α} {f : α → PM β} {e : Env} {s : PState} {v : β} {s' : PState}
+    (h : (m >>= f) e s = .ok v s') : ∃ a s1, m e s = .ok a s1 ∧ f a e s1 = .ok v s' := by
+  rw [bind_eq] at h
+  cases hm : m e s with
+  | ok a s1 => rw [hm] at h; exact ⟨a, s1, rfl, h⟩
+  | err d s1 => rw [hm] at h; cases h
+  | panic => rw [hm] at h; cases h
+  | fuel => rw [hm] at h; cases h
+
+theorem pure_eq_ok {α} {a v : α} {e : Env} {s s' : PState} (h : (Pure.pure a : PM α) e s = .ok v s') : v = a := by
+  cases h; rfl
+
+theorem parseItem_int_shape {fuel : Nat} {ctx : Ctx} {w : Nat} {e : Env} {s : PState} {v : Val} {s' : PState}
+    (h : parseItem fuel ctx (.int w) e s = .ok v s') : ∃ x hx o, v = .int x hx o w := by
+  cases fuel with
+  | zero => rw [parseItem] at h; cases h
+  | succ fuel =>
+    rw [parseItem] at h
+    obtain ⟨⟨x, hx⟩, s1, _, h⟩ := bind_eq_ok h
+    obtain ⟨o, s2, _, h⟩ := bind_eq_ok h
+    exact ⟨x, hx, o, pure_eq_ok h⟩
+
+theorem parseItems_two_int_shape {fuel : Nat} {ctx : Ctx} {a b : Nat} {e : Env} {s : PState} {vs : List Val}
+    {s' : PState} (h : parseItems fuel ctx [.int a, .int b] e s = .ok vs s') :
+    ∃ x hx ox y hy oy, vs = [.int x hx ox a, .int y hy oy b] := by
+  cases fuel with
+  | zero => rw [parseItems] at h; cases h
+  | succ fuel =>
+    rw [parseItems] at h
+    obtain ⟨v1, s1, h1, h⟩ := bind_eq_ok h
+    obtain ⟨vs1, s2, h2, h⟩ := bind_eq_ok h
+    obtain ⟨x, hx, ox, rfl⟩ := parseItem_int_shape h1
+    cases fuel with
+    | zero => rw [parseItems] at h2; cases h2
+    | succ fuel =>
+      rw [parseItems] at h2
+      obtain ⟨v2, s3, h3, h2⟩ := bind_eq_ok h2
+      obtain ⟨vs2, s4, h4, h2⟩ := bind_eq_ok h2
+      obtain ⟨y, hy, oy, rfl⟩ := parseItem_int_shape h3
+      cases fuel with
+      | zero => rw [parseItems] at h4; cases h4
+      | succ fuel =>
+        rw [parseItems] at h4
+        have := pure_eq_ok h4
+        subst this
+        have := pure_eq_ok h2
+        subst this
+        exact ⟨x, hx, ox, y, hy, oy, pure_eq_ok h⟩
+
+theorem parseType_version_shape {fuel ty : Nat} {ctx : Ctx} {off : Nat} {e : Env} {s : PState} {v : Val} {s' : PState}
+    {a b : Nat} (hlk : e.table.lookup ty = some (.block false [.int a, .int b] [] false))
+    (h : parseType fuel ty ctx off e s = .ok v s') :
+    ∃ info x hx ox y hy oy c1 c2, v = .block ty info [.int x hx ox a, .int y hy oy b] c1 c2 := by
+  cases fuel with
+  | zero => rw [parseType] at h; cases h
+  | succ fuel =>
+    rw [parseType] at h
+    simp only [getEnv_bind, hlk, getNextId_bind] at h
+    obtain ⟨fields, s1, h1, h⟩ := bind_eq_ok h
+    obtain ⟨x, hx, ox, y, hy, oy, rfl⟩ := parseItems_two_int_shape h1
+    simp only [Bool.false_eq_true, if_false, pure_bind_eval, List.zip_nil_left, List.foldlM_nil] at h
+    exact ⟨_, x, hx, ox, y, hy, oy, _, _, pure_eq_ok h⟩
+/-! ## `parse_version`, `parse_file` -/
+
+theorem tableOk_a2lfile {tbl : Table} {k : Known} (h : tableOk tbl k = true) : tyOk tbl k.tyA2lFile = true := by
+  simp only [tableOk, Bool.and_eq_true] at h
+  have := h.1.2
+  unfold tyOk
+  split at this
+  · rename_i h1; rw [h1]
+  · cases this
+
+theorem tableOk_version {tbl : Table} {k : Known} (h : tableOk tbl k = true) :
+    ∃ a b, tbl.lookup k.tyAsap2Version = some (.block false [.int a, .int b] [] false) := by
+  simp only [tableOk, Bool.and_eq_true] at h
+  have := h.2
+  split at this
+  · rename_i a b h1; exact ⟨a, b, h1⟩
+  · cases this
+
+theorem Safe.and_of_eq {α} {c : Cfg e} {lo : Nat} {lg : List Diag} {r : PRes α} {Q Q2 : α → PState → Prop}
+    (h : Safe c lo lg r Q) (h2 : ∀ a s', r = .ok a s' → Q2 a s') :
+    Safe c lo lg r (fun a s' => Q a s' ∧ Q2 a s') := by
+  cases r with
+  | ok a s' => exact ⟨h.1, h.2.1, h.2.2, h2 a s' rfl⟩
+  | err d s' => exact h
+  | panic => exact h
+  | fuel => trivial
+
+theorem resetTail_safe (c : Cfg e) (k : DK) (n : Nat) (s1 : PState) (lg : List Diag) (hl : c.L lg s1.log) :
+    Safe c 0 lg ((setTokenpos 0 >>= fun _ => errorOrLogNoLine k >>= fun _ => Pure.pure n) e s1) T := by
+  simp only [setTokenpos_bind]
+  refine Safe.bind' hl (errorOrLogNoLine_safe c k _ (fun _ => Nat.zero_le _)) ?_
+  intro _ s2 hpos2 hl2 hq2
+  refine Safe.pure ?_ hl2 trivial
+  intro hpb; have := hpos2 hpb; omega
+
+theorem parseVersion_safe (c : Cfg e) (fuel : Nat) (ctx : Ctx) (s : PState) (hp : c.Pre s) :
+    Safe c 0 s.log (parseVersion fuel ctx e s) T := by
+  unfold parseVersion
+  simp only [getEnv_bind, peekToken_bind]
+  generalize e.toks[s.pos]? = o
+  cases o with
+  | none =>
+    dsimp -zeta only
+    exact resetTail_safe c _ _ s _ (c.L_refl _)
+  | some token =>
+    dsimp -zeta only
+    refine Safe.bind_attempt (c.L_refl _) (getIdentifier_safe c ctx s hp) ?_ ?_
+    · intro name s1 hpos1 hl1 _
+      dsimp -zeta only
+      refine Safe.ite ?_ ?_
+      · intro _
+        have hp1 : c.Pre s1 := fun hpb => (hpos1 hpb).2
+        have hty : c.NP → tyOk e.table e.known.tyAsap2Version = true := fun hnp => by
+          obtain ⟨a, b, h⟩ := tableOk_version (c.tbl hnp)
+          unfold tyOk; rw [h]
+        refine Safe.bind_attempt hl1
+          (Safe.and_of_eq ((allSafe c fuel).type e.known.tyAsap2Version _ 0 s1 hty hp1)
+            (Q2 := fun v _ => c.NP → ∃ info x hx ox wa y hy oy wb c1 c2,
+              v = .block e.known.tyAsap2Version info [.int x hx ox wa, .int y hy oy wb] c1 c2) ?_) ?_ ?_
+        · intro v s2 heq hnp
+          obtain ⟨a, b, h⟩ := tableOk_version (c.tbl hnp)
+          obtain ⟨info, x, hx, ox, y, hy, oy, c1, c2, hv⟩ := parseType_version_shape h heq
+          exact ⟨info, x, hx, ox, a, y, hy, oy, b, c1, c2, hv⟩
+        · intro v s2 hpos2 hl2 hq
+          simp only [setTokenpos_bind]
+          generalize hr : (Except.ok v : Except Diag Val) = r
+          split
+          · rename_i major _ _ _ minor _ _ _ _ _
+            generalize versionOf major minor = ov
+            cases ov with
+            | some n => exact Safe.pure (fun _ => ⟨Nat.zero_le _, Nat.zero_le _⟩) hl2 trivial
+            | none =>
+              dsimp only
+              refine Safe.bind' hl2 (errorOrLogNoLine_safe c _ _ (fun _ => Nat.zero_le _)) ?_
+              intro _ s3 hpos3 hl3 hq3
+              refine Safe.pure ?_ hl3 trivial
+              intro hpb; have := hpos3 hpb; omega
+          · rename_i hne
+            intro hnp
+            obtain ⟨info, x, hx, ox, wa, y, hy, oy, wb, c1, c2, hv⟩ := hq.2 hnp
+            subst hv
+            exact hne _ _ _ _ _ _ _ _ _ _ _ _ (Except.ok.inj hr.symm)
+          · cases hr
+        · intro d s2 hpos2 hl2
+          simp only [setTokenpos_bind]
+          refine Safe.bind' hl2 (errorOrLogNoLine_safe c _ _ (fun _ => Nat.zero_le _)) ?_
+          intro _ s3 hpos3 hl3 hq3
+          refine Safe.pure ?_ hl3 trivial
+          intro hpb; have := hpos3 hpb; omega
+      · intro _
+        exact resetTail_safe c _ _ s1 _ hl1
+    · intro d s1 hpos1 hl1
+      dsimp -zeta only
+      rw [if_neg (by simp)]
+      exact resetTail_safe c _ _ s1 _ hl1
+
+theorem parseFile_safe (c : Cfg e) (fuel : Nat) (s : PState) (hp : c.Pre s) :
+    Safe c 0 s.log (parseFile fuel e s) T := by
+  unfold parseFile
+  simp only [getEnv_bind]
+  refine Safe.bindG (lo1 := 0) (parseVersion_safe c fuel _ s hp) ?_
+  intro ver s1 hpos1 hl1 _
+  simp only [modifyState_bind]
+  refine Safe.bind' (s := { s1 with ver := ver }) hl1
+    ((allSafe c fuel).type e.known.tyA2lFile _ 0 _ (fun hnp => tableOk_a2lfile (c.tbl hnp))
+      (fun hpb => (hpos1 hpb).2)) ?_
+  intro file s2 hpos2 hl2 _
+  simp only [peekToken_bind]
+  generalize e.toks[s2.pos]? = o
+  cases o with
+  | none =>
+    dsimp only
+    exact Safe.pure (fun hpb => ⟨Nat.zero_le _, (hpos2 hpb).2⟩) hl2 trivial
+  | some t =>
+    dsimp only
+    refine Safe.bind' hl2 (errorOrLog_safe c _ s2 (fun hpb => (hpos2 hpb).2)) ?_
+    intro _ s3 hpos3 hl3 _
+    exact Safe.pure (fun hpb => ⟨Nat.zero_le _, (hpos3 hpb).2⟩) hl3 trivial
+
 end A2l.Tree
